@@ -781,6 +781,22 @@ func checkTypedRaw(tc *typedCase) outcome {
 		bad("encoder-vs-spec", "encoding differs from the specification model", "encoding", hx(enc), "model", hx(want_))
 		return o
 	}
+	// the value has one encoding whether it is handed over through a pointer (addressable) or by value
+	// (an interface-typed value cannot be handed over "by value": the call would see its dynamic content)
+	if val.Kind() == reflect.Ptr && !val.IsNil() && val.Elem().Kind() != reflect.Interface {
+		byVal, err, p := encodeGuard(val.Elem().Interface())
+		switch {
+		case p != nil:
+			bad("no-panic", fmt.Sprint("EncodeToBytes (by value) panic: ", p))
+		case err != nil && strings.Contains(err.Error(), "unadressable value"):
+			// documented limit of the package: an Encoder with a pointer receiver cannot be reached through a
+			// value that is not addressable
+		case err != nil:
+			bad("encoder-vs-spec", "EncodeToBytes of the value passed by value: "+err.Error())
+		case !bytes.Equal(byVal, enc):
+			bad("encoder-vs-spec", "the value passed by value encodes differently from the value passed through a pointer", "encoding", hx(byVal), "through_pointer", hx(enc))
+		}
+	}
 	// also through Encode(io.Writer) and EncodeToReader
 	{
 		var buf bytes.Buffer
@@ -803,7 +819,9 @@ func checkTypedRaw(tc *typedCase) outcome {
 	}{
 		{"DecodeBytes", func(dst interface{}) error { return rlp.DecodeBytes(enc, dst) }},
 		{"Stream.Decode", func(dst interface{}) error { return rlp.NewStream(bytes.NewReader(enc), 0).Decode(dst) }},
-		{"Decode(bufio)", func(dst interface{}) error { return rlp.NewStream(onlyReader{bytes.NewReader(enc)}, uint64(len(enc))).Decode(dst) }},
+		{"Decode(bufio)", func(dst interface{}) error {
+			return rlp.NewStream(onlyReader{bytes.NewReader(enc)}, uint64(len(enc))).Decode(dst)
+		}},
 	}
 	for _, dc := range decoders {
 		dst := reflect.New(typ)
@@ -834,7 +852,7 @@ type target struct {
 	name   string
 	typ    reflect.Type
 	hasRaw bool
-	fields []*kind // for struct targets: the field kinds (used to name the field a difference falls into)
+	fields []*kind  // for struct targets: the field kinds (used to name the field a difference falls into)
 	keys   []string // quarantine keys
 	// per-process caches of the worker loop
 	quarChecked *worker
@@ -991,4 +1009,3 @@ func checkTarget(scenario string, tg *target, b []byte, refErr error, stream boo
 	}
 	return o
 }
-
